@@ -555,3 +555,105 @@ T("fixes.early_continue",  # F02-10
 T("fixes.breakout_common_code_in_ifs",  # F02-12: tail move when the if ends its block and a dedented line follows
   "def e(x):\n    print(x)\ndef f(a):\n    if a:\n        e(2)\n        e(1)\n    else:\n        e(3)\n        e(1)\nprint(f(1), f(0))\n",
   "def e(x):\n    print(x)\ndef f(a, b):\n    if b:\n        if a:\n            e(2)\n            e(1)\n        else:\n            e(3)\n            e(1)\n    else:\n        e(4)\n    for _k in (0, 1):\n        if a:\n            e(5)\n            e(b)\n        else:\n            e(b)\n    return a\nprint(f(1, 0), f(0, 1))\n")
+
+
+# ------------------------------------------------------------------------------------------------------------
+# Generated families (round 4: hunt reports C01-a-11, C01-b-12/13/14, C15-7 and missed seed C02-c)
+
+def _relayout(src: str, unit: str, nl: str, else_space: bool) -> str:
+    """Re-indent a base written with 4-space indentation.  Lines starting with the marker '~' are continuation
+    lines of a multi-line string literal: they are emitted verbatim (without the marker)."""
+    out = []
+    for line in src.split("\n"):
+        if line.startswith("~"):
+            out.append(line[1:])
+            continue
+        body = line.lstrip(" ")
+        n = (len(line) - len(body)) // 4
+        if else_space and body.rstrip() == "else:":
+            body = "else :"
+        out.append(unit * n + body)
+    return nl.join(out)
+
+
+LAYOUTS = [("    ", "\n", False), ("  ", "\n", False), ("\t", "\n", False), ("   ", "\n", False),
+           ("    ", "\n", True), ("  ", "\n", True), ("    ", "\r\n", False), ("    ", "\r", False)]
+
+# (rules that should fire on it, program).  Every moved block has several statements, some have string literals
+# that span lines, so that a textual re-indentation of the block is observable.
+LAYOUT_BASES = [
+    (("fixes.remove_dead_ifs",),
+     "def f():\n    if True:\n        a = 1\n        b = 2\n        return a + b\nprint(f())\n"),
+    (("fixes.remove_dead_ifs",),
+     "if True:\n    s = \"\"\"a\n~    b\"\"\"\n    print(s)\n"),
+    (("fixes.remove_dead_ifs",),
+     "def f():\n    if 0:\n        return 1\n    else:\n        a = 1\n        s = '''x\n~        y\n~  z'''\n        return (a, s)\nprint(f())\n"),
+    (("fixes.remove_dead_ifs",),
+     "out = []\nfor i in (1, 2):\n    if 1:\n        out.append(i)\n        for j in (3, 4):\n            out.append(i * j)\n        out.append(-i)\nprint(out)\n"),
+    (("fixes.remove_redundant_else",),
+     "def f(x):\n    if x:\n        return 1\n    else:\n        print(\"a\")\n        return 2\nprint(f(0), f(1))\n"),
+    (("fixes.remove_redundant_else",),
+     "def f(x):\n    if x:\n        return 1\n    else:\n        s = \"\"\"a\n~        b\"\"\"\n        return s\nprint(repr(f(0)), f(1))\n"),
+    (("fixes.remove_redundant_else",),
+     "def f(x):\n    if x:\n        y = 1\n    else:\n        y = 2\n    if y == 1:\n        return 1\n    else:\n        return 2\nprint(f(0), f(1))\n"),
+    (("fixes.remove_redundant_else",),
+     "def f(x):\n    for i in range(3):\n        if i == x:\n            continue\n        elif i > x:\n            print('gt', i)\n            break\n        else:\n            print('lt', i)\n            t = '''q\n~  r'''\n            print(t)\n    return x\nprint(f(1), f(5))\n"),
+    (("fixes.swap_if_else", "fixes.remove_redundant_else"),
+     "def f(x):\n    if x:\n        pass\n    else:\n        print('no')\n        s = '''k\n~        l'''\n        return s\n    return 'yes'\nprint(f(0), f(1))\n"),
+    (("fixes.swap_if_else",),
+     "def f(x):\n    if x > 1:\n        a = x * 2\n        b = a + 1\n        print(a, b)\n    else:\n        return 'small'\n    return 'big'\nprint(f(0), f(3))\n"),
+    (("fixes.early_return",),
+     "def f(c):\n    if c:\n        print('c')\n        r = 1\n    else:\n        r = 2\n    return r\nprint(f(0), f(1))\n"),
+    (("fixes.early_continue",),
+     "out = []\nfor a in range(3):\n    if a != 1:\n        out.append(1)\n        out.append('''m\n~        n''')\n        out.append(3)\n        out.append(4)\n        out.append(5)\n        out.append(a)\nprint(out)\n"),
+    (("fixes.breakout_common_code_in_ifs",),
+     "def f(a):\n    r = []\n    if a:\n        r.append(1)\n        r.append('''u\n~        v''')\n    else:\n        r.append(2)\n        r.append('''u\n~        v''')\n    return r\nprint(f(0), f(1))\n"),
+    (("fixes.breakout_common_code_in_ifs",),
+     "def f(a):\n    r = []\n    if a:\n        r.append(0)\n        r.append(1)\n    else:\n        r.append(0)\n        r.append(2)\n    return r\nprint(f(0), f(1))\n"),
+    (("fixes.delete_unreachable_code", "fixes.remove_dead_ifs"),
+     "def f(x):\n    if x:\n        return 1\n    if False:\n        print('dead')\n    else:\n        print('live')\n        print('''w\n~    x''')\n    return 2\n    print('never')\nprint(f(0), f(1))\n"),
+    (("fixes.move_before_loop",),
+     "out = []\nfor i in range(2):\n    k = 7\n    out.append((i, k))\nprint(out)\n"),
+    (("fixes.fix_if_return", "fixes.fix_if_assign"),
+     "def f(x):\n    if x > 1:\n        return True\n    return False\ndef g(x):\n    if x > 1:\n        v = True\n    else:\n        v = False\n    return v\nprint(f(0), f(2), g(0), g(2))\n"),
+]
+for _rules, _src in LAYOUT_BASES:
+    for _unit, _nl, _es in LAYOUTS:
+        _v = _relayout(_src, _unit, _nl, _es)
+        for _r in _rules:
+            if _v not in TRIGGERS.get(_r, []):
+                T(_r, _v)
+
+# early_return on variables that outlive the function frame (C01-a-11)
+T("fixes.early_return",
+  "r = 0\ndef f(c):\n    global r\n    if c:\n        r = 1\n    else:\n        r = 2\n    return r\nprint(f(1), r)\n",
+  "def outer(c):\n    r = 0\n    def f():\n        nonlocal r\n        if c:\n            r = 1\n        else:\n            r = 2\n        return r\n    return f(), r\nprint(outer(0), outer(1))\n",
+  "def f(c):\n    g = lambda: r\n    if c:\n        r = 1\n    elif c is None:\n        r = 3\n    else:\n        r = 2\n    return r\nprint(f(0), f(1), f(None))\n",
+  "def f(c):\n    def g():\n        return r * 10\n    if c:\n        r = 1\n    else:\n        r = 2\n    return r\nprint(f(0), f(1))\n",
+  "log = []\ndef f(c):\n    def g():\n        log.append(r)\n    try:\n        if c:\n            r = 1\n        else:\n            r = 2\n        return r\n    finally:\n        g()\nprint(f(0), f(1), log)\n")
+
+# sum() of a comprehension over a literal range, every sign of the step (missed seed C02-c: element count of a
+# range with a negative step)
+for _lo, _hi, _st in [(lo, hi, st) for lo in (-2, 0, 3, 7, 11) for hi in (-4, 0, 7, 10) for st in (-4, -3, -1, 2, 3)]:
+    if (_hi - _lo) * _st <= 0 and (_lo, _hi) not in ((7, 7), (0, 0)):
+        continue        # empty ranges: keep only two of them per step
+    T("symbolic_math.simplify_math_iterators",
+      f"print(sum([a for a in range({_lo}, {_hi}, {_st})]), sum(a * a + 1 for a in range({_lo}, {_hi}, {_st})))\n")
+T("symbolic_math.simplify_math_iterators",
+  "print(sum([a for a in range(11, 0, -3)]))\n", "print(sum(2 * a + 1 for a in range(3, -4, -1)))\n",
+  "print(sum([1 for a in range(7, 7, -4)]), sum(1 for a in range(9, 0, -3)))\n")
+
+# loops over literal iterables that yield nothing although the object is truthy (missed seed C02-b: is_blocking)
+for _it in ("enumerate(())", "reversed([])", "zip(('a', 'b'), range(0))", "zip((), range(2))", "()", "range(0)", "''",
+            "enumerate('a')", "reversed([1])"):
+    for _rule in ("fixes.delete_unreachable_code", "fixes.remove_redundant_else", "fixes.swap_if_else"):
+        T(_rule,
+          f"def f():\n    for x in {_it}:\n        return 'in loop'\n    print('after the loop')\n    return 'default'\nprint(f())\n",
+          f"def g(c):\n    if c:\n        for x in {_it}:\n            raise ValueError(x)\n    else:\n        return 'else'\n    return 'after'\nprint(g(0), g(1) if not list({_it}) else 'raises')\n")
+
+# and/or in a TRUTH context (if/while tests): operands with effects must survive (F02-83 after repair e3d6231, which
+# stopped the rewrites in value contexts only)
+for _rule in ("symbolic_math.simplify_boolean_expressions", "symbolic_math.simplify_boolean_expressions_symmath"):
+    T(_rule,
+      "def t(v):\n    print('t', v)\n    return v\nif t(1) and t(0) and t(1) and not t(1):\n    print('yes')\nif t(0) or t(0):\n    print('y2')\nprint('end')\n",
+      "def t(v):\n    print('t', v)\n    return v\nx = 3\nif x > 1 and (t(1) or x > 1):\n    print(1)\nwhile t(0) or t(0):\n    pass\nprint('end')\n")
